@@ -10,7 +10,8 @@ From Coq Require Import List ZArith NArith Bool.
 From TF Require Import Base Query Index DB Spec proofs.IndexDefs proofs.BaseP proofs.RepP proofs.DBReadP proofs.DBRemoveP
      proofs.DBStepP proofs.DBRunP proofs.DBSpecP proofs.UpdateP ReadSem UpdateSem proofs.UpdateGenP.
 From TF Require gen.UpdateGen.
-From TF Require Import MemSem proofs.MemStoreGenP.
+From TF Require Import MemSem proofs.MemStoreGenP UpdaterSem proofs.UpdaterGenP.
+From TF Require gen.UpdaterGen.
 Import ListNotations.
 
 Theorem C03_update_exact : forall E C norm, (forall p, wf_point p -> wf_point (norm p)) ->
@@ -107,6 +108,15 @@ Theorem C03_source_memory_storage_update_stores_the_images : forall s (f : point
   rows (rewrite_with s (map (fun p => [f p]) (rows s))) = map f (rows s).
 Proof. exact gen_rewrite_maps. Qed.
 
+(* THE PER-POINT UPDATER, translated from tinyflux/database.py on every run (gen/UpdaterGen.v: the closure perform_update block by block - which argument
+   guards a block by its truth value, what is read, what the callable is handed, what is assigned, how mappings are merged / filtered - chained in the
+   order of the source): it is the model's perform_update, so every theorem above about what an update does to a point is about the source's updater *)
+Theorem C03_source_updater_is_the_model : forall C u p, wf_point p -> UpdaterGen.gen_perform_update C u p = perform_update C u p.
+Proof. exact gen_perform_update_eq. Qed.
+Theorem C03_source_updater_unset_is_the_comprehension : forall (V : Type) ks (d : list (str * V)), dsorted d = true ->
+  fold_left (fun d k => ddel k d) ks d = dict_without ks d.
+Proof. exact fold_ddel_filter. Qed.
+
 Print Assumptions C03_static_update_idempotent.
 Print Assumptions C03_update_exact.
 Print Assumptions C03_merge_key_by_key.
@@ -121,3 +131,5 @@ Print Assumptions C03_source_update_all_is_the_model.
 Print Assumptions C03_source_update_exact.
 Print Assumptions C03_source_update_all_exact.
 Print Assumptions C03_source_memory_storage_update_stores_the_images.
+Print Assumptions C03_source_updater_is_the_model.
+Print Assumptions C03_source_updater_unset_is_the_comprehension.
